@@ -22,6 +22,7 @@ setup_repo_imports()
 
 from kernel.type import TVar, TConst, TFun, BoolType
 from kernel.term import Term, Var, Const, Comb, Abs, Bound, And, Or, Not, Eq, Implies, Lambda, Forall
+from kernel import term as kterm
 from kernel.thm import Thm
 from kernel.proofterm import ProofTerm
 from kernel import theory
@@ -315,6 +316,46 @@ def run_check(tier, seed):
         for name, mk in sweepers:
             pt = check_conv(run, name, mk(), t)
             run.count(('conv-nested', name, g_tm(t)), nontrivial=pt is not None)
+
+    # ---- negation normal form: formulas over A B C with negation, &, |, boolean equality (iff) and implication (an atom for
+    #      nnf_conv); negated equivalences whose sides are themselves not normal, at the top and nested.  The result must be in
+    #      normal form (a negation only in front of an atom) and normalising it again must change nothing.
+    def is_nnf(t):
+        if t.is_not():
+            a_ = t.arg
+            return not (a_.is_not() or a_.is_conj() or a_.is_disj() or (a_.is_equals() and a_.lhs.get_type() == B) or a_ in (kterm.true, kterm.false))
+        if t.is_conj() or t.is_disj() or t.is_equals():
+            return is_nnf(t.arg1) and is_nnf(t.arg)
+        return True
+
+    def nnf_form(k):
+        c = r.random()
+        if k == 0 or c < 0.15:
+            return r.choice([Var('A', B), Var('B', B), Var('C', B), Comb(Var('P', TFun(TVar('a'), B)), Var('u', TVar('a')))])
+        if c < 0.45:
+            return Not(nnf_form(k - 1))
+        if c < 0.6:
+            return And(nnf_form(k - 1), nnf_form(k - 1))
+        if c < 0.72:
+            return Or(nnf_form(k - 1), nnf_form(k - 1))
+        if c < 0.95:
+            return Eq(nnf_form(k - 1), nnf_form(k - 1))
+        return kterm.Implies(nnf_form(k - 1), nnf_form(k - 1))
+    for i in range(60 * scale):
+        t = nnf_form(r.choice([2, 3, 4]))
+        if r.random() < 0.5:
+            t = Not(t)
+        pt = check_conv(run, 'nnf_conv', dprop.nnf_conv(), t)
+        run.count(('nnf', g_tm(t)), nontrivial=pt is not None and pt.rhs != t)
+        if pt is None:
+            continue
+        if not is_nnf(pt.rhs):
+            run.violation('property', 'nnf_conv returns %s for %s, which is not in negation normal form' % (sstr(pt.rhs), sstr(t)),
+                          dict(term=repr(t), result=repr(pt.rhs), printed=sstr(pt.rhs)), key='C10:nnf_conv:normal-form')
+        pt2 = check_conv(run, 'nnf_conv', dprop.nnf_conv(), pt.rhs)
+        if pt2 is not None and pt2.rhs != pt.rhs:
+            run.violation('property', 'nnf_conv is not idempotent: %s normalises further to %s' % (sstr(pt.rhs), sstr(pt2.rhs)),
+                          dict(term=repr(t), nf=repr(pt.rhs), again=repr(pt2.rhs)), key='C10:nnf_conv:idempotent')
 
     # ================= (3) arithmetic normalisers ===============================
     for thy, T, mod, mk in (('nat', N, dnat, lambda: dnat.norm_full()), ('int', I, dint, lambda: dint.int_norm_conv()),
